@@ -115,7 +115,7 @@ class ShapeClass:
             return "T"
         if o in ("tuple", "list"):
             return "T"
-        if o in ("loop", "loopvar", "iterelem", "comp", "store", "closure", "partial", "unknown", "raise", "dict", "star"):
+        if o in ("loop", "loopvar", "iterelem", "comp", "store", "grow", "closure", "partial", "unknown", "raise", "dict", "star"):
             return "T"
         if o == "call":
             return self._call(t, none)
